@@ -296,6 +296,125 @@ class PureSpec(FreeSpec):
         return env
 
 
+class DStateSpec(FreeSpec):
+    """(H, C15 only) a differentiated variable that is defined algebraically: der(s) = a2 + u; d = f(a1); der(d) = 1 - a2
+    [+ u]; a1 = g(a2).  Eliminating d (eliminable_variable_expression) replaces der(d) by the derivative of f(a1), which
+    turns a1 into a state in the middle of the pass; the later equations may then eliminate a1 as well."""
+
+    VARIANTS = {
+        # name: (d = ..., der(d) = ..., a1 = ...)
+        "scaled": (B("*", N(3), V("a1")), B("-", N(1), V("a2")), B("*", N(2), V("a2"))),
+        "shifted": (B("+", B("*", N(3), V("a1")), V("p")), B("-", V("u"), V("a2")), V("a2")),
+        "alias": (V("a1"), B("-", N(1), V("a2")), B("*", N(2), V("a2"))),
+        "neg-alias": (neg(V("a1")), B("-", N(1), V("a2")), B("+", B("*", N(2), V("a2")), V("u"))),
+    }
+    PATTERNS = ["d", "d|a1", "[da].*", "a1", "d|a2", "a.*"]
+
+    def __init__(self, variant, perm):
+        self.variant, self.perm = variant, tuple(perm)
+        self.k = self.n = 2
+        self.items = ()
+
+    def key(self):
+        return ["dstate", self.variant, list(self.perm)]
+
+    def affine(self):
+        return True
+
+    def regular(self):
+        return True
+
+    def equations(self):
+        d, dd, a1 = self.VARIANTS[self.variant]
+        return [
+            ("eq", ("der", V("s")), B("+", V("a2"), V("u"))),
+            ("eq", V("d"), d),
+            ("eq", ("der", V("d")), dd),
+            ("eq", V("a1"), a1),
+        ]
+
+    def model(self):
+        decls = [Decl("s", mods={"start": N(1)}), Decl("d"), Decl("u", prefix="input"), Decl("p", prefix="parameter", value=N(2)), Decl("a1"), Decl("a2")]
+        eqs = self.equations()
+        return Model("M", decls, [eqs[i] for i in self.perm])
+
+
+def dstate_jobs(tier):
+    """(key, switches on, eliminable_variable_expression) for family (H): every variant x every order of the four
+    equations x every pattern x {expand_mx alone, + detect_aliases, all switches on (thorough: and all-on without
+    detect_aliases / without iterative_simplification)}."""
+    allon = tuple(sorted(SWITCHES))
+    d = tuple(sorted(set(DEFAULT_ON) | {"expand_mx"}))
+    ons = [d, tuple(sorted(set(d) | {"detect_aliases"})), allon]
+    if tier == "thorough":
+        ons += [tuple(sorted(set(allon) - {"detect_aliases"})), tuple(sorted(set(allon) - {"iterative_simplification"}))]
+    out = []
+    for variant in DStateSpec.VARIANTS:
+        for pm in itertools.permutations(range(4)):
+            for pat in DStateSpec.PATTERNS:
+                for on in ons:
+                    out.append((DStateSpec(variant, pm).key(), on, pat))
+    return out
+
+
+class AliasEveSpec(FreeSpec):
+    """(I, C15 only) eliminable_variable_expression meets recorded aliases: der(s) = a3 + u; an alias equation between a1
+    and a2 that only detect_aliases recognises (2*a1 - 2*a2 = 0, a1 - a2 = 0, a1 + a2 = 0); a1 = 2 * a3; and a3 + a2 = 3
+    (or a2 = 3 - a3).  Under iterative_simplification the second pass sees equations in which an alias was replaced by its
+    canonical variable, so a variable that other variables were recorded as aliases of can become eliminable."""
+
+    ALIAS = {
+        "scaled-diff": lambda a, b: ("eq", B("-", B("*", N(2), a), B("*", N(2), b)), N(0)),
+        "diff0": lambda a, b: ("eq", B("-", a, b), N(0)),
+        "sum0": lambda a, b: ("eq", B("+", a, b), N(0)),
+    }
+    LAST = {
+        "implicit": ("eq", B("+", V("a3"), V("a2")), N(3)),
+        "explicit": ("eq", V("a2"), B("-", N(3), V("a3"))),
+    }
+    PATTERNS = ["a1", "a2", "a[12]", "a3", "a.*"]
+
+    def __init__(self, alias, last, perm):
+        self.alias, self.last, self.perm = alias, last, tuple(perm)
+        self.k = self.n = 3
+        self.items = ()
+
+    def key(self):
+        return ["aeve", self.alias, self.last, list(self.perm)]
+
+    def regular(self):
+        return True
+
+    def equations(self):
+        return [
+            ("eq", ("der", V("s")), B("+", V("a3"), V("u"))),
+            self.ALIAS[self.alias](V("a1"), V("a2")),
+            ("eq", V("a1"), B("*", N(2), V("a3"))),
+            self.LAST[self.last],
+        ]
+
+    def model(self):
+        decls = [Decl("s", mods={"start": N(1)}), Decl("u", prefix="input"), Decl("p", prefix="parameter", value=N(2)), Decl("a1"), Decl("a2"), Decl("a3")]
+        eqs = self.equations()
+        return Model("M", decls, [eqs[i] for i in self.perm])
+
+
+def aliaseve_jobs(tier):
+    """Family (I): every alias form x last-equation form x order of the four equations x pattern x {expand_mx + detect_aliases,
+    + iterative_simplification, all switches on}."""
+    allon = tuple(sorted(SWITCHES))
+    d = tuple(sorted(set(DEFAULT_ON) | {"expand_mx", "detect_aliases"}))
+    ons = [d, tuple(sorted(set(d) | {"iterative_simplification"})), allon]
+    out = []
+    for alias in AliasEveSpec.ALIAS:
+        for last in AliasEveSpec.LAST:
+            for pm in itertools.permutations(range(4)):
+                for pat in AliasEveSpec.PATTERNS:
+                    for on in ons:
+                        out.append((AliasEveSpec(alias, last, pm).key(), on, pat))
+    return out
+
+
 def pure_specs(tier):
     out = []
     for k in (1, 2, 3):
@@ -311,6 +430,10 @@ def make_spec(key):
         return PureSpec(key[1], key[2], key[3])
     if key and key[0] == "free":
         return FreeSpec(key[1], key[2], key[3])
+    if key and key[0] == "aeve":
+        return AliasEveSpec(key[1], key[2], key[3])
+    if key and key[0] == "dstate":
+        return DStateSpec(key[1], key[2])
     return Spec(*key)
 
 
